@@ -34,6 +34,8 @@ NP, NE = 4, 3
 # ----------------------------------------------------------------------------------------------------------------
 _scalar_values = st.one_of(
     st.sampled_from([0, 1, -1, 2, -2, 3, 0.5, -0.5, 0.25, 1.5, -3.0, 0.0, 1.0, 10, 0.1]),
+    st.sampled_from([1e-13, -1e-14, 1e-15, 1e13, 3e-13]),          # legal floats far from 1: nothing may be rounded away
+    st.sampled_from([0, 1, -1, 2, 0.5]),
     st.integers(min_value=-5, max_value=5),
     st.floats(min_value=-8, max_value=8, allow_nan=False, allow_infinity=False, width=32).map(
         lambda x: float(round(x, 3))),
@@ -189,6 +191,112 @@ def ref_eval(t, pv, ev):
     if op == "div":
         return ka, va / vb, ma / abs(vb)
     raise ValueError(op)
+
+
+def ref_sym(t):
+    """symbolic reference: kind and coefficients {key: [value, magnitude]} over the leaves (keys ('p', k) for points,
+    ('G', i, j) with i <= j, ('F', k), ('1',) for expressions; scalars under ('s',)).  The magnitude of a coefficient is the
+    sum of the absolute values of the terms that were added into it: the comparison is per coefficient, relative to it, so
+    a coefficient of 1e-13 next to coefficients of order one must still be there."""
+    op = t[0]
+    if op == "p":
+        return "P", {("p", t[1]): [1.0, 1.0]}
+    if op == "e":
+        return "E", {("F", t[1]): [1.0, 1.0]}
+    if op == "n":
+        return "S", {("s",): [float(t[1]), abs(float(t[1]))]}
+
+    def scale(d, c):
+        return {k: [v * c, m * abs(c)] for k, (v, m) in d.items()}
+
+    def plus(a, b, sign):
+        out = {k: list(v) for k, v in a.items()}
+        for k, (v, m) in b.items():
+            if k in out:
+                out[k] = [out[k][0] + sign * v, out[k][1] + m]
+            else:
+                out[k] = [sign * v, m]
+        return out
+
+    def as_expr(kind, d):
+        return {("1",): d[("s",)]} if kind == "S" else d
+    if op == "neg":
+        k, d = ref_sym(t[1])
+        return k, scale(d, -1.0)
+    if op == "pow2":
+        k, d = ref_sym(t[1])
+        return "E", _dot(d, d)
+    if op == "same":
+        k, d = ref_sym(t[2])
+        return k, plus(d, d, 1.0 if t[1] == "add" else -1.0)
+    ka, da = ref_sym(t[1])
+    kb, db = ref_sym(t[2])
+    if op in ("add", "sub"):
+        sign = 1.0 if op == "add" else -1.0
+        if ka == "P":
+            return "P", plus(da, db, sign)
+        if ka == "S" and kb == "S":
+            return "S", plus(da, db, sign)
+        return "E", plus(as_expr(ka, da), as_expr(kb, db), sign)
+    if op == "mul":
+        if ka == "P" and kb == "P":
+            return "E", _dot(da, db)
+        if ka == "S":
+            return kb, scale(db, da[("s",)][0])
+        return ka, scale(da, db[("s",)][0])
+    if op == "div":
+        return ka, scale(da, 1.0 / db[("s",)][0])
+    raise ValueError(op)
+
+
+def _dot(da, db):
+    out = {}
+    for (_p, i), (vi, mi) in da.items():
+        for (_q, j), (vj, mj) in db.items():
+            key = ("G", min(i, j), max(i, j))
+            cur = out.get(key, [0.0, 0.0])
+            out[key] = [cur[0] + vi * vj, cur[1] + mi * mj]
+    return out
+
+
+def coefficients_of(obj, builder):
+    """coefficients of a PEPit object read from its decomposition, keyed like ref_sym"""
+    from PEPit import Point
+    pi = {id(p): k for k, p in enumerate(builder.points)}
+    ei = {id(e): k for k, e in enumerate(builder.exprs)}
+    out = {}
+    if isinstance(obj, Point):
+        for leaf, w in sem.point_coeffs(obj).items():
+            out[("p", pi[id(leaf)])] = out.get(("p", pi[id(leaf)]), 0.0) + w
+        return out
+    items = [(obj, 1.0)] if obj.get_is_leaf() else list(obj.decomposition_dict.items())
+    for k, w in items:
+        if isinstance(k, tuple):
+            i, j = pi[id(k[0])], pi[id(k[1])]
+            key = ("G", min(i, j), max(i, j))
+        elif isinstance(k, (int, float)):
+            key = ("1",)
+        else:
+            key = ("F", ei[id(k)])
+        out[key] = out.get(key, 0.0) + w
+    return out
+
+
+def compare_coefficients(ctx, tree, obj, builder, tag, report=True):
+    try:
+        kind, want = ref_sym(tree)
+    except (ZeroDivisionError, OverflowError):
+        return True
+    got = coefficients_of(obj, builder)
+    for key in set(want) | set(got):
+        v, m = want.get(key, [0.0, 0.0])
+        g = got.get(key, 0.0)
+        if not (abs(g - v) <= 1e-9 * m + 1e-300):
+            if report:
+                ctx.fail("coefficient:%s" % tag, "coefficient of %r is %r, the operators written give %r (terms of magnitude "
+                         "%.3g went into it)" % (key, g, v, m))
+            return False
+    return True
 
 
 def count_ops(t):
@@ -361,6 +469,14 @@ def check_tree(case, ctx):
         if not ok:
             ctx.fail("cmp-meaning:%s" % op, "constraint expression denotes %r, expected %r (L-R for <=/==, R-L for >=)"
                      % (got, want))
+        else:
+            lr, rl = ["sub", tree[2], tree[3]], ["sub", tree[3], tree[2]]
+            if op == "==":
+                # an equality may be stored as L - R or R - L
+                if not compare_coefficients(ctx, lr, c.expression, b, "constraint", report=False):
+                    compare_coefficients(ctx, rl, c.expression, b, "constraint")
+            else:
+                compare_coefficients(ctx, lr if op in ("<=", "<") else rl, c.expression, b, "constraint")
         ctx.nontrivial(nops >= 3 and has_interesting(["add", tree[2], tree[3]]))
         return
     kind, want, mag = ref_eval(tree, pv, ev)
@@ -373,6 +489,7 @@ def check_tree(case, ctx):
         got = sem.val_point(res, val, dim=n)
         if not close(got, want, mag):
             ctx.fail("meaning:point:%s" % tree[0], "point denotes %r, expected %r" % (got, want))
+        compare_coefficients(ctx, tree, res, b, "point")
     else:
         if not isinstance(res, Expression):
             ctx.fail("type:E", "expected an Expression, got %r" % type(res))
@@ -380,6 +497,7 @@ def check_tree(case, ctx):
         got, gm = sem.val_expr(res, val)
         if not close(got, want, mag + gm):
             ctx.fail("meaning:expr:%s" % tree[0], "expression denotes %r, expected %r" % (got, want))
+        compare_coefficients(ctx, tree, res, b, "expression")
     if has_interesting(tree):
         ctx.label("interesting")
     ctx.nontrivial(nops >= 3 and has_interesting(tree))
